@@ -75,14 +75,14 @@ def Enc.line (k : Enc) (p : List Nat) : List Nat :=
 /-- "begin-base64 644 -\n" / "begin 644 -\n" (default mode 0644, name "-"). -/
 def Enc.begin (k : Enc) : List Nat :=
   match k with
-  | .b64 => "begin-base64 644 -\n".toList.map Char.toNat
-  | .uu => "begin 644 -\n".toList.map Char.toNat
+  | .b64 => [98, 101, 103, 105, 110, 45, 98, 97, 115, 101, 54, 52, 32, 54, 52, 52, 32, 45, 10]
+  | .uu => [98, 101, 103, 105, 110, 32, 54, 52, 52, 32, 45, 10]
 
 /-- "====\n" / "`\nend\n". -/
 def Enc.trailer (k : Enc) : List Nat :=
   match k with
-  | .b64 => "====\n".toList.map Char.toNat
-  | .uu => "`\nend\n".toList.map Char.toNat
+  | .b64 => [61, 61, 61, 61, 10]
+  | .uu => [96, 10, 101, 110, 100, 10]
 
 /-- Encode all complete `LBYTES` lines of `p`; returns the encoded text and the remainder. -/
 def encodeLines (k : Enc) (p : List Nat) : List Nat × List Nat :=
@@ -286,31 +286,39 @@ def encClose (w : σ) (h : Handle) (e : EncState) : Int × Handle × List Event 
   let r := clientFilterWrite W w h1 (enc2.map some)
   (r.1, { r.2.1 with enc := some { e with enc := enc2 } }, r.2.2.1, r.2.2.2)
 
-/-- `__archive_write_filters_close`. -/
-def filtersClose (w : σ) (h : Handle) : Int × Handle × List Event × σ :=
-  -- the encoding filter, if open
-  let r1 : Int × Handle × List Event × σ :=
-    match h.enc with
-    | some e =>
-      if e.fstate = .open then
-        let r := encClose W w h e
-        let st := if r.1 = ok then FState.closed else FState.fatal
-        (r.1, { r.2.1 with enc := r.2.1.enc.map (fun e' => { e' with fstate := st }) }, r.2.2.1, r.2.2.2)
-      else (ok, h, [], w)
-    | none => (ok, h, [], w)
-  let ret := if r1.1 < ok then r1.1 else ok
-  let h1 := r1.2.1
-  -- the client filter, if open
+/-- `if (r1 < r) r = r1;` -/
+def imin (a b : Int) : Int := if a < b then a else b
+
+/-- `__archive_write_filters_close`, first filter: the encoder, if there is one and it is open. -/
+def encCloseStep (w : σ) (h : Handle) : Int × Handle × List Event × σ :=
+  match h.enc with
+  | some e =>
+    if e.fstate = .open then
+      let r := encClose W w h e
+      let st := if r.1 = ok then FState.closed else FState.fatal
+      (r.1, { r.2.1 with enc := r.2.1.enc.map (fun e' => { e' with fstate := st }) }, r.2.2.1, r.2.2.2)
+    else (ok, h, [], w)
+  | none => (ok, h, [], w)
+
+/-- `__archive_write_filters_close`, last filter: the client filter, if open
+(`ret` is the status accumulated so far). -/
+def clientCloseStep (w : σ) (h1 : Handle) (ret : Int) : Int × Handle × List Event × σ :=
   if h1.hasClient ∧ h1.cfState = .open then
     match h1.cs with
-    | none => (oobCode, h1, r1.2.2.1, r1.2.2.2)
+    | none => (imin oobCode ret, h1, [], w)
     | some cs =>
-      let c := clientClose W r1.2.2.2 cs h1.bpb h1.bil
+      let c := clientClose W w cs h1.bpb h1.bil
       let rc := stCode c.1
       -- archive_write_client_close sets CLOSED itself; filters_close then sets CLOSED/FATAL from the result
       let h2 := { h1 with cs := none, cfState := if rc = ok then .closed else .fatal }
-      (if rc < ret then rc else ret, h2, r1.2.2.1 ++ c.2.1, c.2.2)
-  else (ret, h1, r1.2.2.1, r1.2.2.2)
+      (imin rc ret, h2, c.2.1, c.2.2)
+  else (ret, h1, [], w)
+
+/-- `__archive_write_filters_close`. -/
+def filtersClose (w : σ) (h : Handle) : Int × Handle × List Event × σ :=
+  let r1 := encCloseStep W w h
+  let r2 := clientCloseStep W r1.2.2.2 r1.2.1 (imin r1.1 ok)
+  (r2.1, r2.2.1, r1.2.2.1 ++ r2.2.2.1, r2.2.2.2)
 
 /-! ### API -/
 
@@ -322,7 +330,7 @@ def apiOpen (w : σ) (h : Handle) : Int × Handle × List Event × σ :=
   if ret < warn then
     let r := filtersClose W w h1
     -- __archive_write_filters_free: every filter is released
-    (if r.1 < ret then r.1 else ret,
+    (imin r.1 ret,
      { r.2.1 with hasClient := false, enc := none, cs := none }, r.2.2.1, r.2.2.2)
   else (ret, { h1 with state := .header }, [], w)
 
@@ -345,7 +353,7 @@ def apiHeader (w : σ) (h : Handle) (e : Entry) : Int × Handle × List Event ×
   let evs := r.2.2.1 ++ r2.2.2.1
   if r2.1 = failed then (failed, r2.2.1, evs, r2.2.2.2) else
   if r2.1 = fatal then (fatal, { r2.2.1 with state := .fatal }, evs, r2.2.2.2) else
-  (if r2.1 < r.1 then r2.1 else r.1, { r2.2.1 with state := .data }, evs, r2.2.2.2)
+  (imin r2.1 r.1, { r2.2.1 with state := .data }, evs, r2.2.2.2)
 
 /-- `_archive_write_data`. -/
 def apiData (w : σ) (h : Handle) (d : List Cell) : Int × Handle × List Event × σ :=
@@ -358,11 +366,9 @@ def apiClose (w : σ) (h : Handle) : Int × Handle × List Event × σ :=
   let r : Int × Handle × List Event × σ :=
     if h.state = .data ∧ hasFinishEntry h then formatFinishEntry W w h else (ok, h, [], w)
   let r1 := formatClose W r.2.2.2 r.2.1
-  let ret := if r1.1 < r.1 then r1.1 else r.1
   let r2 := filtersClose W r1.2.2.2 r1.2.1
-  let ret := if r2.1 < ret then r2.1 else ret
   let h2 := r2.2.1
-  (ret, if h2.state ≠ .fatal then { h2 with state := .closed } else h2,
+  (imin r2.1 (imin r1.1 r.1), if h2.state ≠ .fatal then { h2 with state := .closed } else h2,
    r.2.2.1 ++ r1.2.2.1 ++ r2.2.2.1, r2.2.2.2)
 
 /-- `_archive_write_free`: the status it returns (the handle is gone afterwards). -/
